@@ -28,6 +28,12 @@ Correspondence (real code vs compiled model driver, every observable the propert
   clip      Grid.clip on boxes with both corners inside the extent against `clip` (bit-equal corner, data, parent):
             free boxes and lattice-aligned ones (decimal cell sizes 0.1, 0.05, 0.025, ...; corners ON cell edges, on
             centres, on quarters, and one ulp either side);
+  histories on ONE object (2-4 steps, every answer compared with the model / oracle on the CURRENT state): save -> edits
+            (item writes, writes through the returned array, fill, equal-size data re-assignment, re-assignment of name,
+            comment, corner, cell size, no-data) -> save again to the same path -> load (`edits`, `save`, `load`); edit of the
+            array given to the setter; load -> edit -> to_dict -> from_dict, dictionary edited by the caller -> to_dict again,
+            same files loaded again; clone of a clone with writes on any of the three (`store3`); clip of a clip, parent
+            edited between clips, clip edited; catchment exported, export edited by the caller, re-delineated, exported again;
   catchment Catchment.to_dict / from_dict (directly and through json) after a real delineation, with and without inlets:
             random flow direction grids, and routed ones (spanning tree to the outlet around interior closed depressions)
             whose area encloses one or several holes, with inlets next to the holes: outlet, inlets, area and filled area
@@ -483,6 +489,8 @@ def body(ctx):
         pM.write_text(hM)
         bM = g.data.astype(g.data.dtype.newbyteorder(">")).tobytes()
         pM.with_suffix(".bil").write_bytes(bM)
+        # the header / data the theorem `fromStream_file .big` talks about are the ones fed to the real reader here
+        ask("savebo M " + grid_toks(g), "save", (canon_header(hM, t), bM.hex()), {**case, "op": "saveM", "header": hM})
         howM = ["from_header", "from_stream", "from_zip"][it % 3]
         try:
             g3, defname = read_back(pM, howM)
@@ -502,6 +510,43 @@ def body(ctx):
 
     def ilist(x):
         return "-" if x is None else C.ilist(x)
+
+    def judge_catch(ca, cb, case, via, nr, nc):
+        """the property on the rebuilt catchment: same outlet, inlets, area and filled area (as sets of cells, and as the
+        answers of isin), same flow direction grid metadata"""
+        c2 = {**case, "via": via}
+        area0 = sorted(int(v) for v in ca.idxcells_area)
+        filled0 = sorted(int(v) for v in ca.idxcells_area_filled)
+        hole = len(set(filled0) - set(area0))
+        want_in = None if ca.idxinlets is None else [int(v) for v in ca.idxinlets]
+        if int(cb.idxcell_outlet) != int(ca.idxcell_outlet):
+            ctx.finding("catchment/outlet", "outlet changed in the dictionary round trip", c2)
+        got_in = None if cb.idxinlets is None else [int(v) for v in cb.idxinlets]
+        if got_in != want_in:
+            ctx.finding("catchment/inlets_lost" if got_in is None else "catchment/inlets", "inlets changed in the dictionary round trip",
+                        {**c2, "got": got_in, "want": want_in})
+        a1 = sorted(int(v) for v in cb.idxcells_area)
+        f1 = sorted(int(v) for v in cb.idxcells_area_filled)
+        if a1 != area0:
+            ctx.finding("catchment/area", "area cells changed in the dictionary round trip",
+                        {**c2, "missing": sorted(set(area0) - set(a1)), "extra": sorted(set(a1) - set(area0))})
+        if f1 != filled0:
+            ctx.finding("catchment/filled_area" + ("/with_hole" if hole else ""), "filled area cells changed in the dictionary round trip",
+                        {**c2, "missing": sorted(set(filled0) - set(f1)), "extra": sorted(set(f1) - set(filled0))})
+        if hasattr(ca, "isin"):
+            for fl in (False, True):
+                want = [bool(ca.isin(c, fl)) for c in range(nr * nc)]
+                try:
+                    got = [bool(cb.isin(c, fl)) for c in range(nr * nc)]
+                except Exception as e:  # noqa
+                    ctx.finding("catchment/isin_raises", "isin raises on the rebuilt catchment", {**c2, "error": f"{exc_class(e)}: {e}"[:200]})
+                    continue
+                if got != want:
+                    ctx.finding("catchment/isin" + ("_filled" if fl else ""), "the rebuilt catchment answers isin differently",
+                                {**c2, "cells": [c for c in range(nr * nc) if got[c] != want[c]]})
+        check_meta(ctx, "catchment/flowdir", ca.flowdir, cb.flowdir, c2)
+        return got_in, a1, f1
+
 
     def catchment_case(fddata, outlet, inlets, name, idx):
         nr, nc = fddata.shape
@@ -525,36 +570,7 @@ def body(ctx):
                 "hole_cells": sorted(set(filled0) - set(area0))}
 
         def judge(cb, via):
-            """the property on the rebuilt catchment: same outlet, inlets, area and filled area (as sets of cells, and as the
-            answers of isin), same flow direction grid metadata"""
-            c2 = {**case, "via": via}
-            if int(cb.idxcell_outlet) != int(ca.idxcell_outlet):
-                ctx.finding("catchment/outlet", "outlet changed in the dictionary round trip", c2)
-            got_in = None if cb.idxinlets is None else [int(v) for v in cb.idxinlets]
-            if got_in != want_in:
-                ctx.finding("catchment/inlets_lost" if got_in is None else "catchment/inlets", "inlets changed in the dictionary round trip",
-                            {**c2, "got": got_in, "want": want_in})
-            a1 = sorted(int(v) for v in cb.idxcells_area)
-            f1 = sorted(int(v) for v in cb.idxcells_area_filled)
-            if a1 != area0:
-                ctx.finding("catchment/area", "area cells changed in the dictionary round trip",
-                            {**c2, "missing": sorted(set(area0) - set(a1)), "extra": sorted(set(a1) - set(area0))})
-            if f1 != filled0:
-                ctx.finding("catchment/filled_area" + ("/with_hole" if hole else ""), "filled area cells changed in the dictionary round trip",
-                            {**c2, "missing": sorted(set(filled0) - set(f1)), "extra": sorted(set(f1) - set(filled0))})
-            if hasattr(ca, "isin"):
-                for fl in (False, True):
-                    want = [bool(ca.isin(c, fl)) for c in range(nr * nc)]
-                    try:
-                        got = [bool(cb.isin(c, fl)) for c in range(nr * nc)]
-                    except Exception as e:  # noqa
-                        ctx.finding("catchment/isin_raises", "isin raises on the rebuilt catchment", {**c2, "error": f"{exc_class(e)}: {e}"[:200]})
-                        continue
-                    if got != want:
-                        ctx.finding("catchment/isin" + ("_filled" if fl else ""), "the rebuilt catchment answers isin differently",
-                                    {**c2, "cells": [c for c in range(nr * nc) if got[c] != want[c]]})
-            check_meta(ctx, "catchment/flowdir", ca.flowdir, cb.flowdir, c2)
-            return got_in, a1, f1
+            return judge_catch(ca, cb, case, via, nr, nc)
 
         try:
             d = ca.to_dict()
@@ -803,6 +819,33 @@ def body(ctx):
         except Exception as e:  # noqa  (nothing unexpected may escape: it becomes a correspondence disagreement)
             escaped(e)
 
+    def canon_dict(d):
+        """(observable content of a to_dict() result, request rebuilding it in the model); raises if uninterpretable"""
+        pk = {k: v for k, v in d.items() if k.startswith("parentgrid_")}
+        dt = np.dtype(d["dtype"])
+        ndraw = d["nodata"]
+        if isinstance(ndraw, (bytes, bytearray)):
+            ndraw = ndraw.decode()
+        if dt.kind == "f":
+            ndw = word_of(dt.type(float(ndraw)), dt)
+            ndtext = ndraw if isinstance(ndraw, str) else repr(float(ndraw))
+        else:
+            try:
+                ndint = int(ndraw)
+            except ValueError:
+                ndint = int(float(ndraw))
+            ndw = word_of(dt.type(ndint), dt)
+            ndtext = str(ndint)
+        ndcanon = "nan" if is_nan_word(ndw, dt) else str(ndw)
+        impl = {"name": str(d["name"]), "ncols": int(d["ncols"]), "nrows": int(d["nrows"]), "csz": rawhex(d["cellsize"]),
+                "xll": rawhex(d["xllcorner"]), "yll": rawhex(d["yllcorner"]), "dtype": dt.kind + str(dt.itemsize),
+                "nodata": ndcanon, "comment": str(d["comment"]),
+                "parent": sorted((k, pval_value(v)) for k, v in pk.items())}
+        dreq = " ".join(["fromdict", enc(str(d["name"])), str(int(d["ncols"])), str(int(d["nrows"])), rawhex(d["cellsize"]),
+                         rawhex(d["xllcorner"]), rawhex(d["yllcorner"]), enc(dt.str), enc(ndtext), enc(str(d["comment"])),
+                         parent_toks(pk)])
+        return impl, dreq
+
     # ======================================================================= (4) dictionaries, dtype strings, pixel types
     for rep in range(ctx.scale(50, 400)):
         try:
@@ -820,29 +863,7 @@ def body(ctx):
                 # the dictionary's observable content, independent of how values are represented (numpy or python scalars,
                 # numbers or numeric text, any spelling np.dtype understands, key order)
                 try:
-                    pk = {k: v for k, v in d.items() if k.startswith("parentgrid_")}
-                    dt = np.dtype(d["dtype"])
-                    ndraw = d["nodata"]
-                    if isinstance(ndraw, (bytes, bytearray)):
-                        ndraw = ndraw.decode()
-                    if dt.kind == "f":
-                        ndw = word_of(dt.type(float(ndraw)), dt)
-                        ndtext = ndraw if isinstance(ndraw, str) else repr(float(ndraw))
-                    else:
-                        try:
-                            ndint = int(ndraw)
-                        except ValueError:
-                            ndint = int(float(ndraw))
-                        ndw = word_of(dt.type(ndint), dt)
-                        ndtext = str(ndint)
-                    ndcanon = "nan" if is_nan_word(ndw, dt) else str(ndw)
-                    impl = {"name": str(d["name"]), "ncols": int(d["ncols"]), "nrows": int(d["nrows"]), "csz": rawhex(d["cellsize"]),
-                            "xll": rawhex(d["xllcorner"]), "yll": rawhex(d["yllcorner"]), "dtype": dt.kind + str(dt.itemsize),
-                            "nodata": ndcanon, "comment": str(d["comment"]),
-                            "parent": sorted((k, pval_value(v)) for k, v in pk.items())}
-                    dreq = " ".join(["fromdict", enc(str(d["name"])), str(int(d["ncols"])), str(int(d["nrows"])), rawhex(d["cellsize"]),
-                                     rawhex(d["xllcorner"]), rawhex(d["yllcorner"]), enc(dt.str), enc(ndtext), enc(str(d["comment"])),
-                                     parent_toks(pk)])
+                    impl, dreq = canon_dict(d)
                 except Exception as e:  # noqa
                     ctx.disagree("C13/dict: the dictionary returned by to_dict cannot be interpreted",
                                  {**case, "dict": dshow, "error": f"{exc_class(e)}: {e}"[:200]})
@@ -1017,6 +1038,32 @@ def body(ctx):
         except Exception as e:  # noqa  (nothing unexpected may escape: it becomes a correspondence disagreement)
             escaped(e)
 
+    def centre_oracle(parent, cl, case, mag, cls, sig="clip"):
+        """the clip clause as stated: read through ITS OWN georeferencing, the clipped grid holds at each of its cell centres
+        the value `parent` holds at that coordinate, and the centre is the parent's cell centre (to 4 ulp)"""
+        ncl = int(cl.nrows) * int(cl.ncols)
+        if ncl < 1 or cl.data.shape != (int(cl.nrows), int(cl.ncols)):
+            ctx.finding(f"{sig}/empty", "clip of a box inside the extent is empty or inconsistent", {**case, "clip_shape": list(cl.data.shape)})
+            return
+        cxy = cl.cell2coord(np.arange(ncl))
+        back = parent.coord2cell(cxy)
+        if (back < 0).any():
+            ctx.finding(f"{sig}/centres", "a cell centre of the clipped grid lies outside the parent", case)
+            return
+        pvals = uview(parent.data).ravel()[back]
+        cvals = uview(cl.data).ravel()
+        if not np.array_equal(pvals, cvals):
+            k = int(np.argwhere(pvals != cvals)[0][0])
+            ctx.finding(f"{sig}/values_at_centres/{cls}",
+                        "a cell of the clipped grid does not hold the value the parent holds at that cell's centre",
+                        {**case, "clip_cell": k, "centre": [float(v) for v in cxy[k]], "parent_cell": int(back[k]),
+                         "clip_word": int(cvals[k]), "parent_word": int(pvals[k]), "n_differ": int((pvals != cvals).sum())})
+        pxy = parent.cell2coord(back)
+        tol = 4 * np.spacing(mag)
+        if not np.all(np.abs(cxy - pxy) <= tol):
+            ctx.finding(f"{sig}/centres", "cell centres of the clipped grid do not coincide with the parent's",
+                        {**case, "max_diff": float(np.abs(cxy - pxy).max()), "tol": float(tol)})
+
     # ======================================================================= (6) clip
     F = Fraction
     DEC_CSZ = ["0.1", "0.05", "0.025", "0.0025", "0.2", "0.3", "0.7", "0.001", "0.01", "0.5", "2", "0.25", "1", "1000", "0.0125"]
@@ -1095,28 +1142,7 @@ def body(ctx):
             # ---- oracle 1 (the property as stated, whichever cells the corners round into): the clipped grid, read through
             # ITS OWN georeferencing, holds at each of its cell centres the value the parent holds at that coordinate
             if safe_ext:
-                ncl = int(cl.nrows) * int(cl.ncols)
-                if ncl < 1 or cl.data.shape != (int(cl.nrows), int(cl.ncols)):
-                    ctx.finding("clip/empty", "clip of a box inside the extent is empty or inconsistent", {**case, "clip_shape": list(cl.data.shape)})
-                else:
-                    cxy = cl.cell2coord(np.arange(ncl))
-                    back = g.coord2cell(cxy)
-                    if (back < 0).any():
-                        ctx.finding("clip/centres", "a cell centre of the clipped grid lies outside the parent", case)
-                    else:
-                        pvals = uview(g.data).ravel()[back]
-                        cvals = uview(cl.data).ravel()
-                        if not np.array_equal(pvals, cvals):
-                            k = int(np.argwhere(pvals != cvals)[0][0])
-                            ctx.finding(f"clip/values_at_centres/{cls}",
-                                        "a cell of the clipped grid does not hold the value the parent holds at that cell's centre",
-                                        {**case, "clip_cell": k, "centre": [float(v) for v in cxy[k]], "parent_cell": int(back[k]),
-                                         "clip_word": int(cvals[k]), "parent_word": int(pvals[k]), "n_differ": int((pvals != cvals).sum())})
-                        pxy = g.cell2coord(back)
-                        tol = 4 * np.spacing(mag)
-                        if not np.all(np.abs(cxy - pxy) <= tol):
-                            ctx.finding("clip/centres", "cell centres of the clipped grid do not coincide with the parent's",
-                                        {**case, "max_diff": float(np.abs(cxy - pxy).max()), "tol": float(tol)})
+                centre_oracle(g, cl, case, mag, cls)
             # ---- oracle 2 (exact window, claimed only when no corner is within rounding distance of a cell edge)
             ec0, ec1 = int(fx(x0) // 1), int(fx(x1) // 1)
             erb, ert = nr - 1 - int(fy(y0) // 1), nr - 1 - int(fy(y1) // 1)
@@ -1216,6 +1242,262 @@ def body(ctx):
             if catchment_case(fddata, outlet, inlets, gen_text(rng) or "c", ndone):
                 ndone += 1
         except Exception as e:  # noqa  (nothing unexpected may escape: it becomes a correspondence disagreement)
+            escaped(e)
+
+    # ======================================================================= (8) histories on ONE object
+    def dot(sx):
+        return ".".join(["x"] + [str(ord(c)) for c in sx])
+
+    def random_edit(g, t, nr, nc):
+        """one admissible edit applied to the real grid; returns its token for the model"""
+        k = rng.random()
+        w = gen_words(rng, t, 1)[0]
+        sc = np.array([w], dtype="u%d" % t.itemsize).view(t)[0]
+        if k < 0.2:
+            idx = rng.randrange(nr * nc)
+            g[idx] = sc
+            return f"i:{idx}:{w}"
+        if k < 0.3:
+            i, j = rng.randrange(nr), rng.randrange(nc)
+            g.data[i, j] = sc                                  # through the array the getter returns
+            return f"i:{i * nc + j}:{w}"
+        if k < 0.4:
+            g.fill(sc)
+            return f"f:{w}"
+        if k < 0.55:
+            nv = np.array(gen_words(rng, t, nr * nc), dtype="u%d" % t.itemsize).view(t).reshape(nr, nc)   # equal-size re-assignment
+            g.data = nv
+            return f"d:{fmt_mat(nv)}"
+        if k < 0.65:
+            g.name = gen_text(rng)
+            return "n:" + dot(g.name)
+        if k < 0.75:
+            g.comment = gen_text(rng, 30)
+            return "c:" + dot(g.comment)
+        if k < 0.88:
+            g.xllcorner, g.yllcorner, g.cellsize = np.float64(gen_float(rng)), np.float64(gen_float(rng)), np.float64(gen_float(rng))
+            return f"g:{rawhex(g.xllcorner)}:{rawhex(g.yllcorner)}:{rawhex(g.cellsize)}"
+        g.nodata = sc
+        return f"v:{w}"
+
+    # ---- (8a) save -> edit -> save again to the same path -> load; load -> edit -> to_dict -> from_dict; to_dict twice
+    for rep in range(ctx.scale(150, 1500)):
+        try:
+            tname = DTYPES[rep % len(DTYPES)]
+            t = np.dtype(tname)
+            nr, nc = gen_shape(ctx, rng)
+            if nr * nc > 100:
+                nr, nc = 5, 4
+            g, vals, nodw = make_grid(Grid, rng, tname, (nr, nc))
+            keep = vals.copy()
+            g.data = vals
+            vals[...] = np.array(gen_words(rng, t, nr * nc), dtype="u%d" % t.itemsize).view(t).reshape(nr, nc)   # edit the INPUT array
+            case = {"op": "history/save", "dtype": tname, "shape": [nr, nc], "edits": []}
+            if g.data.tobytes() != keep.tobytes():
+                ctx.finding("history/setter_aliases_input", "editing the array given to the data setter changed the grid", case)
+                g._data = keep.copy()
+            path = work / "hist.bil"
+            for f in work.glob("hist.*"):
+                f.unlink()
+            nsteps = rng.randint(2, 4)
+            for step in range(nsteps):
+                g.save(path)
+                htext = path.with_suffix(".hdr").read_text()
+                dbytes = path.read_bytes()
+                c2 = {**case, "step": step, "header": htext}
+                ask("save " + grid_toks(g), "save", (canon_header(htext, t), dbytes.hex()), {**c2, "dtype": tname})
+                how = ["from_header", "from_stream", "from_zip", "from_stringio"][(rep + step) % 4]
+                try:
+                    g2, defname = read_back(path.with_suffix(".hdr"), how)
+                except Exception as e:  # noqa
+                    ctx.finding("history/saveload/cannot_read_back", "a grid saved again after edits cannot be loaded",
+                                {**c2, "how": how, "error": f"{exc_class(e)}: {e}"[:200]})
+                    break
+                ask(load_request(defname, htext, dbytes), "load", ("I", obs_real(g2)), {**c2, "how": how})
+                check_meta(ctx, "history/saveload", g, g2, {**c2, "how": how})          # against the CURRENT state of g
+                if np.dtype(g2.dtype) == t:
+                    check_bits(ctx, f"history/saveload/data/{data_class(t, g.data)}",
+                               "after edits and a second save, the loaded cells are not the current cells", g.data, g2.data, {**c2, "how": how})
+                # the loaded grid is its own object: edit it, export it, and load the untouched file again
+                if step == 0:
+                    snap = obs_real(g2)
+                    toks0 = grid_toks(g2)
+                    e2 = [random_edit(g2, t, nr, nc) for _ in range(rng.randint(1, 3))]
+                    ask("edits " + toks0 + " " + " ".join(e2), "grid", obs_real(g2), {**c2, "op": "history/edits_loaded", "edits": e2})
+                    d1 = g2.to_dict()
+                    g3 = Grid.from_dict(d1)
+                    check_meta(ctx, "history/dict", g2, g3, {**c2, "edits": e2})
+                    ask("todict " + grid_toks(g2), "todict", canon_dict(d1)[0], {**c2, "op": "history/todict", "dtype": tname})
+                    # a caller changing the returned dictionary does not change the grid: the next export is the same
+                    shown = {k: repr(v) for k, v in d1.items()}
+                    for kk in list(d1.keys()):
+                        d1[kk] = 99 if kk in ("ncols", "nrows") else "changed"
+                    if {k: repr(v) for k, v in g2.to_dict().items()} != shown:
+                        ctx.finding("history/dict_aliases_state", "changing the dictionary returned by to_dict changed the next export", c2)
+                    g4, _ = read_back(path.with_suffix(".hdr"), how)
+                    if diff_obs(snap, obs_real(g4)):
+                        ctx.finding("history/load_not_fresh", "loading the same files again after editing the first loaded grid gives another grid",
+                                    {**c2, "fields": diff_obs(snap, obs_real(g4))})
+                # edits before the next save
+                toks0 = grid_toks(g)
+                es = [random_edit(g, t, nr, nc) for _ in range(rng.randint(1, 3))]
+                case["edits"] = case["edits"] + es
+                ask("edits " + toks0 + " " + " ".join(es), "grid", obs_real(g), {**c2, "op": "history/edits", "edits": es})
+            ctx.count(("history/save", tname, nr, nc, tuple(case["edits"])), True, "history/save_edit_save")
+        except Exception as e:  # noqa
+            escaped(e)
+
+    # ---- (8b) clone of a clone: three objects, writes on any of them
+    for rep in range(ctx.scale(150, 1500)):
+        try:
+            tname = rng.choice(DTYPES)
+            t = np.dtype(tname)
+            nr, nc = gen_shape(ctx, rng)
+            if nr * nc > 64:
+                nr, nc = 4, 4
+            a, vals, _ = make_grid(Grid, rng, tname, (nr, nc), name="a", comment="")
+            a.data = vals
+            b = a.clone() if rng.random() < 0.5 else a.clone(t.type)
+            c = b.clone() if rng.random() < 0.5 else b.clone(t.type)
+            obj = {"A": a, "B": b, "C": c}
+            exp = {k: v.data.copy() for k, v in obj.items()}
+            ops = []
+            case = {"op": "history/clone_of_clone", "dtype": tname, "shape": [nr, nc], "ops": ops}
+            check_meta(ctx, "history/clone_of_clone", a, c, case)
+            broken = False
+            for _ in range(rng.randint(2, 8)):
+                who = rng.choice("ABC")
+                k = rng.random()
+                w = gen_words(rng, t, 1)[0]
+                sc = np.array([w], dtype="u%d" % t.itemsize).view(t)[0]
+                if k < 0.4:
+                    idx = rng.randrange(nr * nc)
+                    if rng.random() < 0.5:
+                        obj[who][idx] = sc
+                    else:
+                        obj[who].data[idx // nc, idx % nc] = sc
+                    ops.append(f"{who}:i:{idx}:{w}")
+                elif k < 0.6:
+                    obj[who].fill(sc)
+                    ops.append(f"{who}:f:{w}")
+                else:
+                    nv = np.array(gen_words(rng, t, nr * nc), dtype="u%d" % t.itemsize).view(t).reshape(nr, nc)
+                    obj[who].data = nv
+                    ops.append(f"{who}:d:{fmt_mat(nv)}")
+                for o in "ABC":
+                    if o != who and not broken and obj[o].data.tobytes() != exp[o].tobytes():
+                        broken = True
+                        ctx.finding("history/clone_of_clone/not_independent", f"a write through {who} changed {o}", {**case, "ops": list(ops)})
+                if not broken and (np.shares_memory(a.data, b.data) or np.shares_memory(b.data, c.data) or np.shares_memory(a.data, c.data)):
+                    broken = True
+                    ctx.finding("history/clone_of_clone/shares_memory", "two of original, clone and clone of the clone share their data", {**case, "ops": list(ops)})
+                exp[who] = obj[who].data.copy()
+            ask(f"store3 {fmt_mat(vals)} " + " ".join(ops), "plain", " ".join(fmt_mat(obj[k].data) for k in "ABC"), {**case, "ops": list(ops)})
+            ctx.count(("history/clone3", tname, tuple(ops)), True, "history/clone_of_clone")
+        except Exception as e:  # noqa
+            escaped(e)
+
+    # ---- (8c) clip of a clip, edits of parent / clip between clips
+    for rep in range(ctx.scale(150, 1500)):
+        try:
+            tname = rng.choice(DTYPES)
+            t = np.dtype(tname)
+            nr, nc = rng.randint(3, 12), rng.randint(3, 12)
+            dcsz, dxll, dyll = F(rng.choice(DEC_CSZ)), F(rng.choice(DEC_ORG)), F(rng.choice(DEC_ORG))
+            csz, xll, yll = float(dcsz), float(dxll), float(dyll)
+            g, vals, nodw = make_grid(Grid, rng, tname, (nr, nc), georef=(xll, yll, csz))
+            g.data = vals
+            mag = max(abs(xll), abs(yll), abs(xll + csz * nc), abs(yll + csz * nr), csz * max(nr, nc))
+            cls = data_class(t, vals)
+
+            def inner_box(gr):
+                """a box with both corners well inside cells of `gr` (fractions 0.25 .. 0.75 of a cell)"""
+                n_r, n_c = int(gr.nrows), int(gr.ncols)
+                a0, a1 = sorted([rng.randrange(n_c), rng.randrange(n_c)])
+                b0, b1 = sorted([rng.randrange(n_r), rng.randrange(n_r)])
+                f = [rng.choice([0.5, 0.25, 0.75]) for _ in range(4)]
+                if a0 == a1:
+                    f[0], f[1] = sorted(f[:2])
+                if b0 == b1:
+                    f[2], f[3] = sorted(f[2:])
+                gx, gy, gc = float(gr.xllcorner), float(gr.yllcorner), float(gr.cellsize)
+                return (gx + gc * (a0 + f[0]), gy + gc * (b0 + f[2]), gx + gc * (a1 + f[1]), gy + gc * (b1 + f[3]))
+
+            box1 = inner_box(g)
+            case = {"op": "history/clip_of_clip", "dtype": tname, "shape": [nr, nc], "xll": repr(xll), "yll": repr(yll), "csz": repr(csz),
+                    "box1": [repr(v) for v in box1]}
+            cl1 = g.clip(*box1)
+            centre_oracle(g, cl1, case, mag, cls, "history/clip")
+            box2 = inner_box(cl1)
+            case["box2"] = [repr(v) for v in box2]
+            cl2 = cl1.clip(*box2)
+            ask("clip " + " ".join(rawhex(v) for v in box2) + " " + grid_toks(cl1), "grid_nocomment", obs_real(cl2), case)
+            centre_oracle(cl1, cl2, case, mag, cls, "history/clip_of_clip")       # against its parent
+            centre_oracle(g, cl2, case, mag, cls, "history/clip_of_clip")         # and against the original grid
+            # edits between clips: parent and clips are separate objects; a new clip shows the parent's CURRENT cells
+            s1, s2 = cl1.data.copy(), cl2.data.copy()
+            es = [random_edit(g, t, nr, nc) for _ in range(rng.randint(1, 2))]
+            es = [e for e in es if e[0] in "ifd"] or [random_edit(g, t, nr, nc)]
+            if cl1.data.tobytes() != s1.tobytes() or cl2.data.tobytes() != s2.tobytes():
+                ctx.finding("history/clip_aliases_parent", "editing the parent grid changed a grid clipped from it before", {**case, "edits": es})
+            if rawhex(g.cellsize) == rawhex(csz) and rawhex(g.xllcorner) == rawhex(xll) and rawhex(g.yllcorner) == rawhex(yll):
+                cl3 = g.clip(*box1)
+                ask("clip " + " ".join(rawhex(v) for v in box1) + " " + grid_toks(g), "grid_nocomment", obs_real(cl3), {**case, "edits": es})
+                centre_oracle(g, cl3, {**case, "edits": es}, mag, data_class(t, g.data), "history/clip_after_edit")
+            gsnap = g.data.copy()
+            cl1.fill(np.array([gen_words(rng, t, 1)[0]], dtype="u%d" % t.itemsize).view(t)[0])
+            if g.data.tobytes() != gsnap.tobytes() or cl2.data.tobytes() != s2.tobytes():
+                ctx.finding("history/clip_aliases_parent", "writing into a clipped grid changed its parent or a grid clipped from it", case)
+            ctx.count(("history/clip", tname, nr, nc, box1, box2), True, "history/clip_of_clip")
+        except Exception as e:  # noqa
+            escaped(e)
+
+    # ---- (8d) catchments: export, caller edits the export, re-delineate, export again
+    for rep in range(ctx.scale(60, 500)):
+        try:
+            fddata, outlet, ring = routed_catchment()
+            nr, nc = fddata.shape
+            fd = Grid("fd", nc, nr, dtype=np.int64)
+            fd.data = fddata
+            ca = Catchment("hist", fd)
+            prev = None
+            nok = 0
+            for step in range(rng.randint(2, 3)):
+                o = outlet if step == 0 else rng.randrange(nr * nc)
+                inl = None if rng.random() < 0.5 else (rng.sample(ring, min(len(ring), 2)) if ring else None)
+                try:
+                    ca.delineate_area(o, inl)
+                except ValueError:
+                    break
+                nok += 1
+                case = {"op": "history/catchment", "shape": [nr, nc], "step": step, "outlet": o, "inlets": inl, "flowdir": fddata.tolist()}
+                d1 = ca.to_dict()
+                shown = json.dumps(d1, default=lambda x: x.item() if isinstance(x, np.generic) else x.tolist(), sort_keys=True)
+                # the caller edits what was returned
+                for kk in ("idxcells_area", "idxcells_area_filled", "idxinlets"):
+                    vv = d1.get(kk)
+                    if isinstance(vv, list):
+                        vv.append(3)
+                        vv[0] = -5
+                    elif isinstance(vv, np.ndarray) and vv.size:
+                        vv[...] = -5
+                if isinstance(d1.get("flowdir"), dict):
+                    d1["flowdir"]["ncols"] = 77
+                d2 = ca.to_dict()
+                if json.dumps(d2, default=lambda x: x.item() if isinstance(x, np.generic) else x.tolist(), sort_keys=True) != shown:
+                    ctx.finding("history/catchment_dict_aliases_state", "editing the dictionary returned by Catchment.to_dict changed the next export", case)
+                cb = Catchment.from_dict(d2)
+                judge_catch(ca, cb, case, "dict-after-history", nr, nc)
+                if prev is not None:
+                    pcb, psnap = prev
+                    now = (int(pcb.idxcell_outlet), None if pcb.idxinlets is None else [int(v) for v in pcb.idxinlets],
+                           [int(v) for v in pcb.idxcells_area], [int(v) for v in pcb.idxcells_area_filled])
+                    if now != psnap:
+                        ctx.finding("history/catchment_rebuilt_aliases", "re-delineating a catchment changed a catchment rebuilt from its earlier dictionary", case)
+                prev = (cb, (int(cb.idxcell_outlet), None if cb.idxinlets is None else [int(v) for v in cb.idxinlets],
+                             [int(v) for v in cb.idxcells_area], [int(v) for v in cb.idxcells_area_filled]))
+            ctx.count(("history/catch", rep, tuple(fddata.ravel())), nok > 1, "history/catchment")
+        except Exception as e:  # noqa
             escaped(e)
 
     # ======================================================================= correspondence
@@ -1327,7 +1609,7 @@ def body(ctx):
 
 
 def main(tier, replay=None):
-    return C.run_check(PID, tier, body, needs_native=True, replay=replay,
+    return C.run_check(PID, tier, body, needs_native=True, replay=replay, level_partial=["external_text_statement"],
                        trusted=["python float()/str(np.floatN), numpy scalar construction from text, ndarray.tofile/np.fromfile, "
                                 "copy.deepcopy, zipfile, the file system (external; exercised end to end)",
                                 "python `re` on single-line ASCII strings (modelled as list functions, compared by result)",
